@@ -349,7 +349,12 @@ impl ParquetTable {
                     .into_par_iter()
                     .map(|rg| crate::storage::ipc_cache::read_row_group(&dir, rg, projection, None))
                     .collect();
-                return Ok(per_rg?.into_iter().flatten().collect());
+                // An unreadable sidecar (another process republished or
+                // removed it after `ensure_sidecar` handed it out) is the same
+                // as no sidecar: fall through to the Parquet reader.
+                if let Ok(per_rg) = per_rg {
+                    return Ok(per_rg.into_iter().flatten().collect());
+                }
             }
         }
 
@@ -513,7 +518,10 @@ impl ParquetTable {
                             }
                         })
                         .collect();
-                    return Ok(per_rg?.into_iter().flatten().collect());
+                    // see read_file: an unreadable sidecar falls back to Parquet
+                    if let Ok(per_rg) = per_rg {
+                        return Ok(per_rg.into_iter().flatten().collect());
+                    }
                 }
             }
         }
